@@ -37,7 +37,11 @@ Mutants this was built against (details in the final report):
   M8 parse.rs  parse_range default range "1" -> "0"                -> oracle (re-parse)
   M9 parse.rs  iter_lines_handle_nl forgets to strip the newline   -> oracle (apply)
   M10 patches.py stats_values counts ContextLine as insert         -> oracle (stats)
+  M11 diff.py  'equal' lines taken from a[j1:j2]                     -> oracle (apply)
+  M12 (equivalent) `replace(b"+1,", b"+0,")` in the empty-new-text work-around -> clean
   H1 (harmless) unified_diff_bytes: loop rewritten with slices precomputed -> clean
+(M2 and M3 do not change what breezy's own patcher produces; they are caught by
+the correspondence tie, M8 additionally by the re-parse oracle.)
 """
 import difflib
 import itertools
@@ -358,6 +362,8 @@ def one_case(ctx, batch, a, b, n, mname, matcher, do_perturb):
     sl = split_nl(ser)
     batch.add(dict(case, check="reprint"), "reprint " + hxl(dl), hxl(sl))
     p2 = impl_parse(sl)
+    batch.add(dict(case, check="parse-reserialised"), "parse " + hxl(sl),
+              p2 if isinstance(p2, str) else dump_hunks(p2.hunks))
     if isinstance(p2, str) or dump_hunks(p2.hunks) != dump_hunks(p.hunks):
         ctx.violation(case, "re-serialised patch %r parses to %s, the original diff to %s"
                       % (ser, p2 if isinstance(p2, str) else dump_hunks(p2.hunks), dump_hunks(p.hunks)))
